@@ -274,7 +274,25 @@ pub fn run(ctx: &mut Ctx) {
                             let _ = arch.get(*id).map_err(|e| e.to_string())?;
                         }
                     }
-                    add_all(&mut arch, &mut model, &second, every)?;
+                    if (i / 4) % 2 == 1 {
+                        // the second half is added by ANOTHER thread (the archive object moves there and back): what the store
+                        // derives from a content must not depend on the thread that derived it
+                        let items: Vec<(u64, Vec<u8>)> = second.iter().map(|id| (*id, l.tiles[id].as_ref().clone())).collect();
+                        let handle = std::thread::spawn(move || -> Result<Arch, String> {
+                            let mut arch = arch;
+                            for (id, c) in items {
+                                arch.add(id, c).map_err(|e| e.to_string())?;
+                            }
+                            Ok(arch)
+                        });
+                        arch = handle.join().map_err(|_| String::from("adder thread panicked"))??;
+                        for id in &second {
+                            model.add(*id, l.tiles[id].as_ref().clone());
+                        }
+                        check_store(&arch.report(), &model).map_err(|e| format!("builder: {e}"))?;
+                    } else {
+                        add_all(&mut arch, &mut model, &second, every)?;
+                    }
                 }
                 2 => {
                     // everything, reopen, then re-add identical bytes for a third of the (now backed) tiles
@@ -315,7 +333,7 @@ pub fn run(ctx: &mut Ctx) {
             if i % 5 == 2 {
                 // into a stream that still holds an older, longer file: the archive's sections must not grow to cover stale bytes
                 arch.save_over(3_000_000).map_err(|e| e.to_string())
-            } else if i % 10 == 7 {
+            } else if i % 10 == 7 || (i % 4 == 2 && i % 3 == 1) {
                 // written by another thread than the one that added the tiles
                 std::thread::spawn(move || arch.save().map_err(|e| e.to_string())).join().unwrap_or_else(|_| Err(String::from("writer thread panicked")))
             } else {
